@@ -232,11 +232,39 @@ def handleMjsplit (rest : List String) : String :=
       if allEq lines then lines.headD "bad-op" else "model-trees-differ"
   | _ => "bad-op"
 
+/-- Streams `s<b><E>` (coordinates times 2^-E, E ≤ 149) and `S<b><E>` (times 2^E, E ≤ 100), b ∈ g x l:
+the integer cloud of the base stream scaled by a power of two.  Every coordinate stays exactly
+representable, so the claim is the one made at scale 1 (for Rcb the `..._rounded` theorems do not
+even need exact coordinate arithmetic). -/
+def scaledStream (stream : String) : Bool :=
+  match stream.toList with
+  | k :: b :: ds =>
+    (k == 's' ∨ k == 'S') ∧ (b == 'g' ∨ b == 'x' ∨ b == 'l') ∧ !ds.isEmpty ∧ ds.length ≤ 3 ∧
+      ds.all Char.isDigit ∧
+      (let e := ds.foldl (fun acc c => acc * 10 + (c.toNat - '0'.toNat)) 0
+       if k == 's' then e ≤ 149 else e ≤ 100)
+  | _ => false
+
+/-- `rcbsplits <e> <seed> <n> <lo> <hi> <wmax> <min> <max>`: `rcbsplit` with coordinates, `min`, `max`
+times 2^e.  When the targets `min/2 + max/2` and `min/2 + (min/2 + max/2)/2` are exactly representable
+in f32 (e ≥ -147, or min and max multiples of 4) every quantity of the cut search is 2^e times the
+integer one and the answer is that of `rcbsplit`; otherwise the model declines. -/
+def handleRcbsplitScaled (rest : List String) : String :=
+  match rest with
+  | e :: rest' =>
+    match parseInt? e, rest'.mapM parseInt? with
+    | some e, some [_, _, _, _, _, mn, mx] =>
+      if e < -149 ∨ e > 100 then "bad-op"
+      else if e ≥ -147 ∨ (mn % 4 == 0 ∧ mx % 4 == 0) then handleRcbsplit rest'
+      else "skip targets-round (subnormal scale, min/max not multiples of 4)"
+    | _, _ => "bad-op"
+  | [] => "bad-op"
+
 def handle (toks : List String) : String :=
   match toks with
   | "part" :: algo :: stream :: rest =>
     if rest.length == 8 ∧ ["rcb", "rcbf", "rib", "hilbert", "zcurve", "mj", "kmeans"].contains algo ∧
-        (stream == "g" ∨ stream == "x" ∨ (stream == "t" ∧ (algo == "rcb" ∨ algo == "rcbf"))) ∧ (rest.take 7).all (fun x => (parseNat? x).isSome) ∧
+        (stream == "g" ∨ stream == "x" ∨ (stream == "t" ∧ (algo == "rcb" ∨ algo == "rcbf")) ∨ scaledStream stream) ∧ (rest.take 7).all (fun x => (parseNat? x).isSome) ∧
         (rest.head? == some "2" ∨ rest.head? == some "3") then
       -- outside `ExactSums` (the frame is built from sums that round, K6): no claim
       if rest.getLast!.startsWith "inexact-frame:" then "skip outside-ExactSums inexact OBB frame"
@@ -257,6 +285,7 @@ def handle (toks : List String) : String :=
   | "parsum" :: rest => handleParsum rest
   | "bbox" :: rest => handleBbox rest
   | "rcbsplit" :: rest => handleRcbsplit rest
+  | "rcbsplits" :: rest => handleRcbsplitScaled rest
   | "mjsplit" :: rest => handleMjsplit rest
   | _ => "bad-op"
 
